@@ -1442,7 +1442,9 @@ def gen_route(ctx, count):
                 else:
                     xrow.append(rng.randint(1, 15) / 16.0)
             X.append(xrow)
-        cases.append({"kind": "route", "shape": shape, "fam": fam, "scalar": scalar, "n": n, "msg": msg,
+        kexp = rng.choice([0.0, 1.0, 2.0, 3.0, -1.0, 0.5, 0.25, 1.5, -0.5])
+        sfac = rng.choice([1.0, 2.0, 4.0, 0.5, 3.0, 0.75])
+        cases.append({"kind": "route", "shape": shape, "fam": fam, "scalar": scalar, "n": n, "msg": msg, "k": hx(kexp), "s": hx(sfac),
                       "u": U, "x": X, "xq": [[rng.randint(3, 61) / 64.0 for _ in range(n)] for _ in range(k)]})
     return cases
 
@@ -1563,6 +1565,23 @@ def oracle_route(c, res):
                 a, b = unhex(ref["ppf"][i][j]), unhex(ref["value_for"][i][j])
                 if not same_num(a, b, 1e-9 * max(1.0, abs(b))):
                     out.append(("ppf-value_for", "ppf(%r) = %r but value_for = %r" % (U[i][j], a, b)))
+    # (c) ** real, * real, real * , / real: one real number in every representation gives one message
+    for op, reps in sorted(res.get("scal", {}).items()):
+        want = reps.get("float")
+        for rn, got in sorted(reps.items()):
+            if rn == "float" or got == want:
+                continue
+            if isinstance(want, str) or isinstance(got, str):
+                out.append(("scalar-rep-exception:%s@%s" % (op, rn), "%s with the real as %s: %s; as python float: %s" % (op, rn, str(got)[:160], str(want)[:160])))
+                continue
+            tol = 1e-6 if rn == "f32" else 0.0
+            okv = all(got[q] == want[q] for q in ("wrap", "cls", "id", "lo", "hi", "shape")) \
+                and len(got["elems"]) == len(want["elems"]) and len(got["log_norm"]) == len(want["log_norm"]) \
+                and all(same_num(unhex(a), unhex(b), tol * max(1.0, abs(unhex(b)))) for ea, eb in zip(got["elems"], want["elems"]) for a, b in zip(ea, eb)) \
+                and all(same_num(unhex(a), unhex(b), tol * max(1.0, abs(unhex(b)))) for a, b in zip(got["log_norm"], want["log_norm"]))
+            if not okv:
+                out.append(("scalar-rep:%s@%s" % (op, rn), "%s with the real %r as %s gives %s, as python float %s" % (
+                    op, unhex(c["k"] if op == "pow" else c["s"]), rn, json.dumps(got)[:300], json.dumps(want)[:300])))
     seen, uniq = set(), []
     for a_, m_ in out:           # one report per kind of disagreement (the first route that shows it is named in the aspect)
         if a_.split("@")[0] not in seen:
@@ -1594,7 +1613,12 @@ def run(ctx):
         "bit for bit with the model; (lpdf) logpdf / pdf of scalar and array messages at scalar, array and batched points against scipy.stats and, "
         "bit for bit, against the model's natural_logpdf, factor/_transform_det of transformed messages at array points; (mixed) array (op) "
         "scalar messages and messages with parameters of different shapes; (hist) query -> m[i] = value -> query [-> ...] histories on array messages, every query compared "
-        "bit for bit with a fresh message built from the current parameters and with the model. A case is non-trivial unless it is the a**1 law on a fixed message or a projection "
+        "bit for bit with a fresh message built from the current parameters and with the model; (route) ONE ANSWER BY EVERY ROUTE: value_for (quantile), cdf, cdf(value_for(u)), ppf, "
+        "logpdf, pdf of every message shape (normal, natural, gamma, beta, real priors, each of the 7 transform stacks; scalar and array; round robin, so every shape in every run) "
+        "called with a python float, np.float64, np.float32, int, 0-d array, 1-element array, k-element array (vectorised), (k,1) column, (k,n) batch, one value per element of an "
+        "array message, one float broadcast over an array message, and again with a float after the array calls -- each compared elementwise with the scalar route (scalar message "
+        "per element, python float per call), with cdf(value_for(u)) == u ON THAT ROUTE, with monotonicity of the vectorised quantiles and with scipy.stats quantiles / cdf of the "
+        "base family pushed through an independent inverse of the stack; and m ** k, m * s, s * m, m / s with the real as float, np.float64, np.float32, 0-d array, int, np.int64. A case is non-trivial unless it is the a**1 law on a fixed message or a projection "
         "of fewer than 3 samples; distinct = distinct abstract input")
     ctx.trusted = [
         "Coq 8.16.1 kernel incl. vm_compute; primitive floats are kernel primitives; Reals axioms of the standard library",
@@ -1610,6 +1634,9 @@ def run(ctx):
         "algebraic theorems are over exact rationals (gamma, beta, natural-normal, fixed; any number of array elements) and over "
         "the reals (normal: mean/sigma <-> natural parameters with sqrt); binary64 results are tied to the same definitions by "
         "bit-exact correspondence only",
+        "the quantile/cdf inverse pair is proved over the reals for every branch of value_for whose erfinv argument is 2u-1 and for every transform stack, under the "
+        "hypotheses erf(erfinv y) = y on (-1,1) and ndtri(Phi y) = y on the library functions; which branch runs for which argument type, and that both branches of the code "
+        "carry that argument, is tied to the code by the route cases (oracle), not by a translator",
         "normalisation of the densities, CDF/mean/variance consistency and the Newton inverses of gamma/beta moment matching are "
         "checked numerically only (quadrature at 1e-6; logpdf pointwise against scipy.stats at 1e-10 of the cancelling terms; "
         "invpsilog against a bracketing root finder at a condition-aware 1e-11); they are not proved. C17_gamma_project assumes "
@@ -1702,6 +1729,9 @@ def run(ctx):
                 for f_, v_ in rr_.items():
                     if isinstance(v_, list):
                         ctx.hist("route", f_ + "@" + rn_)
+            for op_, reps_ in res.get("scal", {}).items():
+                for rn_ in reps_:
+                    ctx.hist("route", op_ + "@" + rn_)
             fails += oracle_route(c, res)
         elif kind == "hist":
             fails += oracle_hist(c, res)
@@ -1768,7 +1798,9 @@ MANIFEST = {
             "matching, natural_logpdf, in-place item assignment) instantiated with Q (gamma, beta, natural-normal, fixed, any array length) and R (normal with sqrt; linear-shift "
             "change of variables; log-determinant of a transform stack by the chain rule), with refutation witnesses for the defects of "
             "the pinned code, plus bit-exact vm_compute correspondence of the same definitions (binary64 instance, libm/scipy values "
-            "as oracle tables) with the running code on generated environments/expressions/projections and a direct property oracle",
+            "as oracle tables) with the running code on generated environments/expressions/projections and a direct property oracle; "
+            "quantile/cdf inverse pair over R for every branch (scalar / ndarray fallback) of value_for, vectorised calls and transform stacks (Quantile.v), "
+            "with the code's routes (argument representations) compared by the oracle",
     "note": "Proved: group/module laws on natural parameters, ordinary<->natural round trips, moment matching of the normal family, "
             "weight normalisation of project, Jacobian bookkeeping. NOT proved (numerical oracle only): normalisation integrals, "
             "CDF/mean/variance consistency, Newton inverses of gamma/beta moment matching. Known findings are printed as KNOWN-FINDING.",
